@@ -383,6 +383,8 @@ impl GenKnobs {
             "C07" => {
                 k.max_indexes = 4;
                 k.metric_change_pct = 10;
+                k.mid_run_pct = 25;
+                k.many_trees_pct = 30;
             }
             "C13" => {
                 k.many_trees_pct = 60;
